@@ -340,7 +340,7 @@ func (s *composeSlice) run(async bool, ck string, scriptText string, x string) s
 	fn := func(exec failsafe.Execution[int]) (int, error) {
 		wg.Add(1)
 		defer wg.Done()
-		s.emit(fmt.Sprintf("fn[%d,%s]", exec.LastResult(), errTreeStr(exec.LastError()))+fl(exec), 0, exec.Attempts(), exec.Executions())
+		s.emit(fmt.Sprintf("%s[%d,%s]", map[bool]string{false: "fn", true: "fnh"}[exec.IsHedge()], exec.LastResult(), errTreeStr(exec.LastError()))+fl(exec), 0, exec.Attempts(), exec.Executions())
 		fnMu.Lock()
 		inv++
 		if inv > 3000 {
@@ -384,7 +384,7 @@ func (s *composeSlice) run(async bool, ck string, scriptText string, x string) s
 			var hmu sync.Mutex
 			s.mu.Lock()
 			s.onEvent = func(name string) {
-				if !strings.HasPrefix(name, want) {
+				if !strings.HasPrefix(name, want) && !(want == "fn[" && strings.HasPrefix(name, "fnh[")) {
 					return
 				}
 				hmu.Lock()
